@@ -43,6 +43,7 @@ def main():
     ap.add_argument('--keep')
     ap.add_argument('--summary', default='')
     ap.add_argument('--needs', default='')
+    ap.add_argument('--detector', default='')
     a = ap.parse_args()
     patch = os.path.join(a.cand, 'patch.diff')
     demo = os.path.join(a.cand, 'demo.py')
@@ -67,7 +68,7 @@ def main():
             if rc == 2:
                 checks[prop]['tail'] = out[-500:]
         res['checks'] = checks
-        res['caught'] = checks[a.prop]['rc'] == 1
+        res['caught'] = checks[a.detector or a.prop]['rc'] == 1
     finally:
         shutil.rmtree(clean, ignore_errors=True)
         shutil.rmtree(bad, ignore_errors=True)
@@ -94,7 +95,11 @@ def main():
                        'clean copies',
             },
             'checks_run': res['checks'],
-            'caught_by_property_check': res['caught'],
+            'detector': a.detector or a.prop,
+            'also_checked': [x for x in a.also.split(',') if x],
+            'caught_by': sorted(k for k, v in res['checks'].items()
+                                if v['rc'] == 1),
+            'caught_by_property_check': res['checks'][a.prop]['rc'] == 1,
             'date': time.strftime('%Y-%m-%d'),
         }
         with open(os.path.join(d, 'meta.json'), 'w') as f:
